@@ -245,11 +245,12 @@ Definition ns_require_taxon (taxa : list str) (l : str) : nat * list str :=
 
 (* --- NexusTaxonSymbolMapper --- *)
 (* __init__ + reset_supplemental_mappings: label_taxon_map() of the namespace folded into a
-   CaseInsensitiveDict: later members with an equal folded label shadow earlier ones *)
+   CaseInsensitiveDict: later members with an equal folded label shadow earlier ones; the maps are
+   association lists, most recent assignment first (number_taxon_map[str(idx+1)] = taxon in member order) *)
 Definition new_mapper (taxa : list str) (by_number : bool) : mapper :=
   mkMapper taxa []
            (rev (map (fun p => (lower (snd p), fst p)) (enum_from O taxa)))
-           (map (fun p => (dec_of_nat (S (fst p)), fst p)) (enum_from O taxa))
+           (rev (map (fun p => (dec_of_nat (S (fst p)), fst p)) (enum_from O taxa)))
            by_number.
 
 Definition add_translate_token (m : mapper) (tok : str) (taxon : nat) : mapper :=
@@ -274,6 +275,22 @@ Definition require_taxon_for_symbol (m : mapper) (symbol : str) : nat * mapper :
       match (if m_by_number m then assoc symbol (m_numbers m) else None) with
       | Some i => (i, m)
       | None => mapper_new_taxon m symbol
+      end
+    end
+  end.
+
+(* lookup_taxon_symbol(symbol, create_taxon_if_not_found): the three-stage look-up - TRANSLATE token, taxon label
+   (both case-insensitive), taxon number (only when enable_lookup_by_taxon_number) - then a new taxon or None *)
+Definition lookup_taxon_symbol (m : mapper) (symbol : str) (create : bool) : option nat * mapper :=
+  match assoc (lower symbol) (m_tokens m) with
+  | Some i => (Some i, m)
+  | None =>
+    match assoc (lower symbol) (m_labels m) with
+    | Some i => (Some i, m)
+    | None =>
+      match (if m_by_number m then assoc symbol (m_numbers m) else None) with
+      | Some i => (Some i, m)
+      | None => if create then (Some (fst (mapper_new_taxon m symbol)), snd (mapper_new_taxon m symbol)) else (None, m)
       end
     end
   end.
